@@ -237,7 +237,72 @@ def run_file_store(case):
         shutil.rmtree(d, ignore_errors=True)
 
 
-KINDS = {"nested_scope": run_nested_scope, "file_store": run_file_store}
+# ---- repatched -------------------------------------------------------------------------------------------------------------------
+def run_repatched(case):
+    """C09: ONE recorder replays a recording, the stored recording is then changed UNDER THE SAME ID through the cassette API
+    (a recording patched after a replay failed on a missing key; a re-import), and the recorder replays that id again.  The
+    second replay is compared with the same replay on a FRESH recorder over the same cassette: a replay is a function of the
+    stored recording and the program, not of what the recorder replayed before.
+    case = {"first": [args of the input calls of program v1], "second": [.. of program v2], "replay": "first"|"second",
+            "policy": "fail"|"run"|"value", "cassette": "memory"|"file", "between": number of other replays in between}"""
+    rdrv = _rdrv()
+    from playback.tape_recorder import TapeRecorder, RecordingParameters
+    from playback.recordings.memory.memory_recording import MemoryRecording
+    inner, cleanup = rdrv.make_cassette(case.get("cassette", "memory"))
+    cur = {}
+    kw = {"run": dict(run_intercepted_when_missing=True), "value": dict(value_when_missing=-1)}.get(case["policy"], {})
+
+    def service(rec):
+        fetch = rec.static_intercept_input("fetch", **kw)(lambda x: cur["base"] + x)
+        send = rec.static_intercept_output("send")(lambda *a: None)
+
+        @rec.recording_params(RecordingParameters(sampling_rate=1.0))
+        class Op(object):
+            @rec.operation()
+            def execute(self):
+                vals = [fetch(a) for a in cur["calls"]]
+                send("sum", vals)
+                return vals
+        return Op
+
+    def replay(rec, Op, rid, calls):
+        cur.update(calls=calls, base=500)
+        try:
+            pb = rec.play(rid, lambda recording: Op().execute())
+            return {"outcome": {"o": "val", "v": {"t": "none"}},
+                    "pbouts": rdrv.datum_list((x.key, x.value) for x in pb.playback_outputs),
+                    "recouts": rdrv.datum_list((x.key, x.value) for x in pb.recorded_outputs), "state": rdrv.state_of(rec)}
+        except BaseException as ex:
+            return {"outcome": rdrv.outcome_of_exc(ex), "pbouts": [], "recouts": [], "state": rdrv.state_of(rec)}
+    try:
+        spy = rdrv.Spy(inner)
+        rec = TapeRecorder(spy)
+        Op = service(rec)
+        rec.enable_recording()
+        for calls, base in ((case["first"], 10), (case["second"], 20), ([7], 30)):
+            cur.update(calls=calls, base=base)
+            Op().execute()
+        rec.disable_recording()
+        if len(spy.ids) != 3:
+            return {"driver_exception": "set-up: %d recordings instead of 3" % len(spy.ids), "trace": ""}
+        prog = case[case.get("replay", "second")]
+        out = {"replay1": replay(rec, Op, spy.ids[0], prog)}
+        for _ in range(case.get("between", 0)):
+            replay(rec, Op, spy.ids[2], [7])
+        # the stored recording under id 0 now gets the data of recording 1 (its own metadata kept)
+        old, donor = inner.get_recording(spy.ids[0]), inner.get_recording(spy.ids[1])
+        new = MemoryRecording(_id=spy.ids[0], recording_data=dict((k, donor.get_data(k)) for k in donor.get_all_keys()),
+                              recording_metadata=dict(old.get_metadata()))
+        inner.save_recording(new)
+        out["replay2"] = replay(rec, Op, spy.ids[0], prog)
+        rec2 = TapeRecorder(inner)
+        out["fresh2"] = replay(rec2, service(rec2), spy.ids[0], prog)
+        return out
+    finally:
+        cleanup()
+
+
+KINDS = {"nested_scope": run_nested_scope, "file_store": run_file_store, "repatched": run_repatched}
 
 
 def in_front_of(fallback):
